@@ -36,6 +36,8 @@ DROP = (1, 3, "a")                # values removed by the per-value filter eleme
 # ------------------------------------------------------------------ JSON <-> flow values
 def dec(v):
     if isinstance(v, dict):
+        if "__range" in v:
+            return list(range(v["__range"]))
         if "__t" in v:
             return tuple(dec(x) for x in v["__t"])
         return dict((k, dec(x)) for k, x in v.items())
@@ -69,12 +71,16 @@ class SrcEl(object):
 
 
 class FC(object):
-    def __init__(self, tag, stop, nres, log, ctx=None):
-        self.tag, self.stop, self.nres, self.log, self.ctx = tag, stop, nres, log, ctx
+    """stop=k: the fill call number k (from 0) raises LenaStopFill; sticky: so does every later call;
+    once: later calls would be accepted again (visible if a finalised branch is filled again)"""
+    def __init__(self, tag, stop, nres, log, ctx=None, once=False):
+        self.tag, self.stop, self.nres, self.log, self.ctx, self.once = tag, stop, nres, log, ctx, once
         self.vals = []
+        self.raised = False
 
     def fill(self, v):
-        if self.stop is not None and len(self.vals) >= self.stop:
+        if self.stop is not None and len(self.vals) >= self.stop and not (self.once and self.raised):
+            self.raised = True
             raise LenaStopFill()
         self.vals.append(v)
         self.log.append(("fill", self.tag, v))
@@ -91,13 +97,15 @@ class FC(object):
 
 
 class FR(object):
-    def __init__(self, tag, stop, nres, log, ctx=None):
-        self.tag, self.stop, self.nres, self.log, self.ctx = tag, stop, nres, log, ctx
+    def __init__(self, tag, stop, nres, log, ctx=None, once=False):
+        self.tag, self.stop, self.nres, self.log, self.ctx, self.once = tag, stop, nres, log, ctx, once
         self.pending = []
         self.n = 0
+        self.raised = False
 
     def fill(self, v):
-        if self.stop is not None and self.n >= self.stop:
+        if self.stop is not None and self.n >= self.stop and not (self.once and self.raised):
+            self.raised = True
             raise LenaStopFill()
         self.n += 1
         self.pending.append(v)
@@ -165,6 +173,13 @@ def mut_fn(tag):
     return f
 
 
+def mutpre_fn(tag):
+    def f(v):
+        v.append("M")
+        return ("pre", tag, len(v))
+    return f
+
+
 def build(d, tag, log):
     """the real branch object for descriptor d"""
     k, form = d["k"], d["form"]
@@ -182,7 +197,7 @@ def build(d, tag, log):
             subs = [build(sd, "%s.%d" % (tag, j), log) for j, sd in enumerate(d["sub"])]
             return Split(subs, copy_buf=d.get("copy", True)) if form == "split" else Zip(subs)
         cls = FC if k == "fc" else FR
-        el = cls(tag, d.get("stop"), d.get("nres", 1), log, d.get("ctx"))
+        el = cls(tag, d.get("stop"), d.get("nres", 1), log, d.get("ctx"), bool(d.get("once")))
         if form == "el":
             return el
         if form == "seq":
@@ -193,6 +208,8 @@ def build(d, tag, log):
             return (pre_fn(tag), el)
         if form == "tuple_post":
             return (el, post_fn(tag))
+        if form == "tuple_mut":
+            return (mutpre_fn(tag), el)
     elif k == "seq":
         if form == "map":
             return map_fn(tag)
@@ -240,7 +257,7 @@ class Ref(object):
             for s in self.sub:
                 s.fill1(v)
         else:
-            pv = ("pre", self.tag, v) if self.form in PRE else v
+            pv = ("pre", self.tag, v) if self.form in PRE else ("pre", self.tag, len(v) + 1) if self.form == "tuple_mut" else v
             self.filled.append(pv)
             self.pending.append(pv)
 
@@ -345,7 +362,7 @@ def show1(d):
     s = "%s:%s" % (d["k"], d["form"])
     extra = []
     if d.get("stop") is not None:
-        extra.append("stop=%d" % d["stop"])
+        extra.append("stop%s=%d" % ("-once" if d.get("once") else "", d["stop"]))
     if "nres" in d and d["nres"] != 1:
         extra.append("nres=%d" % d["nres"])
     if d.get("ctx"):
@@ -464,6 +481,9 @@ def check_run(descs, bufsize, copy_buf, flow_json, mode="iter", prefix=None):
     if got != exp:
         fid = classify(descs, refs, got, exp, flow)
         if prefix:
+            alt = check_run(tame(descs), bufsize, copy_buf, flow_json, mode)
+            if alt:
+                return alt
             fid = prefix + fid.split("/", 1)[1]
         return (fid, "%s = %s, expected %s" % (call, short(got), short(exp)))
     # invocation counts and fills of the top-level logging branches (visible even when a branch yields nothing)
@@ -530,7 +550,8 @@ def check_common(kind, descs, copy_buf, flow_json, rounds):
     except Exception as e:
         return ("Split.__init__/raises-%s/%s" % (type(e).__name__, localise(make, descs)), "%s raises %s: %s" % (call, type(e).__name__, e))
     refs = [Ref(d, str(i)) for i, d in enumerate(descs)]
-    flow = dec(flow_json)
+    flow, rflow = dec(flow_json), dec(flow_json)
+    mutating = any(d["form"] == "tuple_mut" for d in descs)
     try:
         with watchdog(2):
             if kind == "src":
@@ -544,10 +565,10 @@ def check_common(kind, descs, copy_buf, flow_json, rounds):
                     return ("Split.common/%s-methods-missing" % KIND_NAME[kind], "%s has no fill/%s" % (call, name))
                 got, exp, pos = [], [], 0
                 for n in rounds:
-                    for v in flow[pos:pos + n]:
+                    for v, rv in zip(flow[pos:pos + n], rflow[pos:pos + n]):
                         s.fill(v)
                         for b in refs:
-                            b.fill1(v)
+                            b.fill1(rv)
                     pos += n
                     if kind == "fr":
                         got += list(s.request())
@@ -561,6 +582,8 @@ def check_common(kind, descs, copy_buf, flow_json, rounds):
         return ("Split.%s/raises-%s" % (name, type(e).__name__), "%s fill/%s on %s raises %s: %s" % (call, name, short(flow, 80), type(e).__name__, e))
     what = "%s filled with %s (rounds %r) then %s = %s, expected %s" % (call, short(flow, 80), rounds, name, short(got), short(exp))
     if got != exp:
+        if mutating:          # interference only if the same list without in-place mutation behaves
+            return check_common(kind, tame(descs), copy_buf, flow_json, rounds) or ("Split.%s/copy_buf-interference" % name, what)
         for i in range(len(descs)):
             g = [o for o in got if top_tag(o) == i]
             e = [o for o in exp if top_tag(o) == i]
@@ -605,17 +628,18 @@ def check_zip(kind, descs, fields, flow_json, rounds):
     except Exception as e:
         return ("Zip.__init__/raises-%s/%s" % (type(e).__name__, localise(make, descs)), "%s raises %s: %s" % (call, type(e).__name__, e))
     refs = [Ref(d, str(i)) for i, d in enumerate(descs)]
-    flow = dec(flow_json)
+    flow, rflow = dec(flow_json), dec(flow_json)
+    mutating = any(d["form"] == "tuple_mut" for d in descs)
     if not (callable(getattr(z, "fill", None)) and callable(getattr(z, name, None))):
         return ("Zip.common/%s-methods-missing" % KIND_NAME[kind], "%s has no fill/%s" % (call, name))
     try:
         with watchdog(2):
             got, exp, pos = [], [], 0
             for n in rounds:
-                for v in flow[pos:pos + n]:
+                for v, rv in zip(flow[pos:pos + n], rflow[pos:pos + n]):
                     z.fill(v)
                     for b in refs:
-                        b.fill1(v)
+                        b.fill1(rv)
                 pos += n
                 if kind == "fr":
                     got += list(z.request())
@@ -630,6 +654,8 @@ def check_zip(kind, descs, fields, flow_json, rounds):
     gd = [data_part(o) for o in got]
     what = "%s filled with %s (rounds %r) then %s = %s, expected data %s" % (call, short(flow, 80), rounds, name, short(got), short(exp))
     if gd != exp:
+        if mutating:
+            return check_zip(kind, tame(descs), fields, flow_json, rounds) or ("Zip.%s/fill-interference" % name, what)
         if len(gd) > len(exp) and [tuple(t) if isinstance(t, tuple) else t for t in gd[:len(exp)]] == exp:
             return ("Zip.%s/too-many-tuples" % name, what)
         if len(gd) < len(exp) and gd == exp[:len(gd)]:
@@ -642,6 +668,12 @@ def check_zip(kind, descs, fields, flow_json, rounds):
     return None
 
 
+def tame(descs):
+    """the same branch list with the value-mutating branches replaced by their harmless counterparts"""
+    swap = {"tuple_mut": "tuple", "mutmap": "map"}
+    return [dict(d, form=swap.get(d["form"], d["form"])) for d in descs]
+
+
 def rp(fn):
     return lambda *a: bool(fn(*a))
 
@@ -649,7 +681,14 @@ def rp(fn):
 REPLAYERS = {"run": rp(check_run), "indep": rp(check_indep), "common": rp(check_common), "zip": rp(check_zip)}
 
 
+class TooManyTimeouts(Exception):
+    pass
+
+
 def report(R, res, fn, args):
+    if res and "non-termination" in res[0] and R.fail_counts.get(res[0], 0) >= 8:
+        R.fail(res[0], res[1], {"fn": fn, "args": args}, {"fn": fn, "args": args})
+        raise TooManyTimeouts(res[0])
     R.check(res is None, res[0] if res else "", res[1] if res else "", {"fn": fn, "args": args}, {"fn": fn, "args": args})
 
 
@@ -664,7 +703,7 @@ def with_stops(descs, L, stop_set=None):
     for d in descs:
         if d["k"] in ("fc", "fr") and d["form"] not in ("split", "zip"):
             ks = [k for k in range(L) if stop_set is None or k in stop_set]
-            opts.append([d] + [dict(d, stop=k) for k in ks])
+            opts.append([d] + [dict(d, stop=k, once=((k + len(opts)) % 2 == 0)) for k in ks])
         else:
             opts.append([d])
     return itertools.product(*opts)
@@ -691,6 +730,13 @@ def all_forms():
 
 
 def body(R):
+    try:
+        scopes(R)
+    except TooManyTimeouts as e:
+        R.fail("harness/aborted-after-repeated-non-termination", "run stopped after 9 reports of %s; the remaining scopes were not executed" % e)
+
+
+def scopes(R):
     rng = R.rng
     T = R.thorough
     kinds = ["src", "fc", "fr", "seq"]
@@ -699,7 +745,7 @@ def body(R):
     nmax, Lmax = (4, 4) if T else (3, 4)
     R.scope("Split.run schedule (canonical tagged branches)",
             "ALL branch lists of length 0..%d over {Source, fill/compute el, fill/request el, block-recording Sequence}; "
-            "LenaStopFill at every fill index 0..L-1 (or never) of every fill branch; flows 0,1,..,L-1 of length L=0..%d%s; "
+            "LenaStopFill at every fill index 0..L-1 (or never) of every fill branch (raised once or on every later fill too, alternating with index+position); flows 0,1,..,L-1 of length L=0..%d%s; "
             "bufsize in {1..L+1, 1000, None}; copy_buf in {True, False}; output, invocation counts and fills vs split_spec"
             % (nmax, Lmax, " (and L=5 for lists of length <= 3)" if T else ""), True)
     for n in range(0, nmax + 1):
@@ -721,10 +767,24 @@ def body(R):
             descs = [dict(CANON[rng.choice(kinds)]) for _ in range(4)]
             for d in descs:
                 if d["k"] in ("fc", "fr") and L and rng.random() < 0.6:
-                    d["stop"] = rng.randrange(L)
+                    d["stop"], d["once"] = rng.randrange(L), rng.random() < 0.5
             bs, cb = rng.choice(bufsizes(L)), rng.random() < 0.5
             R.case(True)
             report(R, check_run(descs, bs, cb, list(range(L))), "run", [descs, bs, cb, list(range(L))])
+
+    # --- A2: bufsize None / 1000 on flows longer than 1000
+    R.scope("Split.run schedule (flows longer than 1000)",
+            "flows 0..L-1 with L in {999,1000,1001,2001}; bufsize in {None, 1000, 7}; branch lists [block], [fr, block, fc], [fc stop=1000, src, fr stop-once=1500, block]; "
+            "copy_buf in {True, False}", True)
+    longs = [[CANON["seq"]], [CANON["fr"], CANON["seq"], CANON["fc"]],
+             [dict(CANON["fc"], stop=1000), CANON["src"], dict(CANON["fr"], stop=1500, once=True), CANON["seq"]]]
+    for descs in longs:
+        for L in (999, 1000, 1001, 2001):
+            for bs in (None, 1000, 7):
+                for cb in (True, False):
+                    R.case(True)
+                    a = [descs, bs, cb, {"__range": L}]
+                    report(R, check_run(*a), "run", a)
 
     # --- B: every way a branch can be given (classification and conversion), lists of length 1..2
     forms = all_forms()
@@ -757,7 +817,7 @@ def body(R):
         for _j in range(n):
             d = copy.deepcopy(rng.choice(forms))
             if d["k"] in ("fc", "fr") and d["form"] not in ("split", "zip") and L and rng.random() < 0.5:
-                d["stop"] = rng.randrange(L)
+                d["stop"], d["once"] = rng.randrange(L), rng.random() < 0.5
             descs.append(d)
         flow = [rng.choice(VALUES) for _j in range(L)]
         bs, cb = rng.choice(bufsizes(L)), rng.random() < 0.5
@@ -791,7 +851,7 @@ def body(R):
             descs[rng.randrange(3)] = dict(vocab[rng.randrange(4)])
             for d in descs:
                 if d["k"] in ("fc", "fr") and rng.random() < 0.5:
-                    d["stop"] = rng.randrange(L)
+                    d["stop"], d["once"] = rng.randrange(L), rng.random() < 0.5
             cb = rng.random() < 0.5
             flow = [rng.choice(VALUES[:8]) for _j in range(L)]
             R.case(True)
@@ -819,7 +879,7 @@ def body(R):
     mut_flow = [[0], [], [2]]
     R.scope("Split common-type methods fill/compute, fill/request, __call__",
             "ALL lists of length 1..3 of one kind (6 fill/compute forms, 5 fill/request forms, 4 Source forms); copy_buf in {True,False}; flows of "
-            "length 0..3 of ints and of mutable lists; fill/request in rounds (fill k values, request) for 5 round patterns; compute/request/__call__ == "
+            "length 0..3 of ints and of mutable lists (with copy_buf=True also with a value-mutating fill/compute branch at every position); fill/request in rounds (fill k values, request) for 5 round patterns; compute/request/__call__ == "
             "concatenation of the branches' results in branch order, each branch filled with every value; fill+compute == run", True)
     for n in (1, 2, 3):
         for base in itertools.product(fcf, repeat=n):
@@ -828,6 +888,11 @@ def body(R):
                     R.case(True, {"branches": show(base), "flow": flow})
                     a = ["fc", list(base), cb, flow, [len(flow)]]
                     report(R, check_common(*a), "common", a)
+        for base in itertools.product(fcf[:3], repeat=n):          # copy_buf=True: a value-mutating branch at every position
+            for pos in range(n + 1):
+                a = ["fc", list(base[:pos]) + [{"k": "fc", "form": "tuple_mut"}] + list(base[pos:]), True, mut_flow, [3]]
+                R.case(True)
+                report(R, check_common(*a), "common", a)
         for base in itertools.product(frf, repeat=n):
             for cb in (True, False):
                 for flow, rounds in (([], [0]), ([0, 1], [2]), ([0, 1, 2], [1, 2]), ([0], [0, 1]), (mut_flow, [2, 0, 1])):
@@ -847,7 +912,7 @@ def body(R):
            {"k": "fr", "form": "el", "nres": 2, "ctx": "own"}]
     R.scope("Zip fill/compute and fill/request",
             "ALL lists of length 1..3 over 8 fill/compute forms (0..3 results, with pre/post maps, tuple to convert, results with own/empty context) "
-            "and 7 fill/request forms; with and without namedtuple fields; flows of length 0..2 (ints, mutable lists); request in rounds: "
+            "and 7 fill/request forms; with and without namedtuple fields; flows of length 0..2 (ints, mutable lists; also with a value-mutating branch at every position); request in rounds: "
             "the i-th tuple is the tuple of the branches' i-th results (data parts), as many tuples as the shortest branch has results", True)
     for n in (1, 2, 3):
         fld = [None, ["f%d" % j for j in range(n)]]
@@ -856,6 +921,11 @@ def body(R):
                 for flow in ([], [0, 1], [[5], []]):
                     R.case(True, {"zip": show(base), "flow": flow})
                     a = ["fc", list(base), fields, flow, [len(flow)]]
+                    report(R, check_zip(*a), "zip", a)
+            if n < 3:
+                for pos in range(n + 1):                            # a value-mutating branch at every position
+                    a = ["fc", list(base[:pos]) + [{"k": "fc", "form": "tuple_mut"}] + list(base[pos:]), None, [[5], []], [2]]
+                    R.case(True)
                     report(R, check_zip(*a), "zip", a)
         for base in itertools.product(zfr, repeat=n):
             for fields in fld:
